@@ -94,6 +94,20 @@ func (c *Ctx) protectedAccesses(n ast.Node, lts []lockedType) []protAccess {
 		if sel == nil || sel.Kind() != types.FieldVal {
 			return "", false
 		}
+		// a value this very function has just built from a literal is not shared yet: nobody else can hold its lock
+		if id, isId := unparen(se.X).(*ast.Ident); isId {
+			if fd := c.funcContaining(id.Pos()); fd != nil {
+				if ds := c.localDefs(fd)[c.objOf(id)]; len(ds) == 1 && ds[0] != nil {
+					d := unparen(ds[0])
+					if u, isAddr := d.(*ast.UnaryExpr); isAddr && u.Op == token.AND {
+						d = unparen(u.X)
+					}
+					if _, isLit := d.(*ast.CompositeLit); isLit {
+						return "", false
+					}
+				}
+			}
+		}
 		for _, lt := range lts {
 			if isNamed(sel.Recv(), c.Types, lt.named.Obj().Name()) && lt.protected[se.Sel.Name] {
 				return se.Sel.Name, true
@@ -470,8 +484,40 @@ func (c *Ctx) initOnlyFuncs() map[string]bool {
 	return out
 }
 
+// onceLiterals: function literals handed directly to sync.Once.Do.
+func (c *Ctx) onceLiterals() []*ast.FuncLit {
+	var out []*ast.FuncLit
+	for _, fd := range c.allFuncDecls() {
+		if fd.Body == nil {
+			continue
+		}
+		ast.Inspect(fd.Body, func(n ast.Node) bool {
+			call, ok := n.(*ast.CallExpr)
+			if !ok {
+				return true
+			}
+			if r, name, pkg, isM := c.calleeMethod(call); isM && pkg == "sync" && r == "Once" && name == "Do" && len(call.Args) == 1 {
+				if fl, ok := unparen(call.Args[0]).(*ast.FuncLit); ok {
+					out = append(out, fl)
+				}
+			}
+			return true
+		})
+	}
+	return out
+}
+
 func ruleGlobals(c *Ctx) {
 	const rule = "globals"
+	onceLits := c.onceLiterals()
+	inOnceLit := func(p token.Pos) bool {
+		for _, fl := range onceLits {
+			if fl.Pos() <= p && p <= fl.End() {
+				return true
+			}
+		}
+		return false
+	}
 	onceFns := c.onceInitFuncs()
 	initOnly := c.initOnlyFuncs()
 	writers := map[*types.Var][]string{}
@@ -484,7 +530,11 @@ func ruleGlobals(c *Ctx) {
 			record := func(e ast.Expr) {
 				if p, ok := c.apath(e); ok {
 					if v, ok := p.Root.(*types.Var); ok && v.Parent() == c.Types.Scope() {
-						writers[v] = append(writers[v], fn)
+						if inOnceLit(e.Pos()) {
+							writers[v] = append(writers[v], onceLiteralWriter)
+						} else {
+							writers[v] = append(writers[v], fn)
+						}
 					}
 				}
 			}
@@ -547,7 +597,7 @@ func ruleGlobals(c *Ctx) {
 			// the package cache: stored only by the function run under sync.Once
 			ok := len(ws) > 0
 			for _, w := range ws {
-				isOnce := false
+				isOnce := w == onceLiteralWriter
 				for f := range onceFns {
 					if funcDisplay(f) == w {
 						isOnce = true
@@ -609,6 +659,9 @@ func ruleGlobals(c *Ctx) {
 				if !ok || c.objOf(id) != cacheVar {
 					return true
 				}
+				if inOnceLit(id.Pos()) {
+					return true // the one-time initialisation
+				}
 				loads++
 				okUse := false
 				if se, ok := parents[id].(*ast.SelectorExpr); ok && se.X == ast.Expr(id) {
@@ -634,6 +687,12 @@ func ruleGlobals(c *Ctx) {
 					return true
 				}
 				e := unparen(rs.Results[0])
+				if id, isId := e.(*ast.Ident); isId {
+					// a local built once from a literal
+					if ds := c.localDefs(sc)[c.objOf(id)]; len(ds) == 1 && ds[0] != nil {
+						e = unparen(ds[0])
+					}
+				}
 				if u, ok := e.(*ast.UnaryExpr); ok && u.Op == token.AND {
 					e = unparen(u.X)
 				}
@@ -947,3 +1006,5 @@ func (c *Ctx) onlyServesShallowClone(fd *ast.FuncDecl) bool {
 	}
 	return ok && n > 0
 }
+
+const onceLiteralWriter = "<func literal run by sync.Once>"
